@@ -73,6 +73,9 @@ static void reb_simulation_add_local(struct reb_simulation* const r, struct reb_
 		reb_tree_add_particle_to_tree(r, r->N);
 	}
 	(r->N)++;
+    if (r->integrator == REB_INTEGRATOR_BS){
+        r->ri_bs.first_or_last_step = 1; // Particle number changed. Restart step size control.
+    }
     if (r->integrator == REB_INTEGRATOR_MERCURIUS){
         struct reb_integrator_mercurius* rim = &(r->ri_mercurius);
         if (r->ri_mercurius.mode==0){ //WHFast part
@@ -358,6 +361,9 @@ int reb_simulation_remove_particle(struct reb_simulation* const r, int index, in
     if (keep_sorted && r->tree_root){
         reb_simulation_error(r, "REBOUND cannot remove a particle a tree and keep the particles sorted. Did not remove particle.");
         return 0;
+    }
+    if (r->integrator == REB_INTEGRATOR_BS){
+        r->ri_bs.first_or_last_step = 1; // Particle number changes. Restart step size control.
     }
     if (r->integrator == REB_INTEGRATOR_MERCURIUS){
         keep_sorted = 1; // Force keep_sorted for hybrid integrator
